@@ -81,20 +81,20 @@ def synthetic_repro(chk):
 
 def case(chk, i):
     rng = chk.rng("case", i)
-    items = gen_allow.generate(rng)
+    nsr = chk.rng("ns", i)
+    ns = nsr.choice([None, None, None, ["net"], ["disk", "cache"]])
+    items = gen_allow.generate(rng, cxx=bool(ns))
     d = chk.dir("c%d" % (i % 32))
     base_flags = ["--no-prepend-enum-name", "--no-layout-tests"] if rng.random() < 0.5 else ["--no-prepend-enum-name"]
     # C++ variant: the same declaration graph inside one (possibly nested) namespace; patterns are then namespace-qualified paths,
     # and a bare name must select nothing
-    nsr = chk.rng("ns", i)
-    ns = nsr.choice([None, None, None, ["net"], ["disk", "cache"]])
     cargs = []
     if ns:
         items = [it for it in items if it.sub != "macro"]       # macros have no namespace
         body = gen_allow.header(items)
         text = "".join("namespace %s {\n" % n for n in ns) + body + "}\n" * len(ns)
         hdr = write(os.path.join(d, "a%d.hpp" % i), text)
-        base_flags = base_flags + ["--enable-cxx-namespaces"]
+        base_flags = base_flags + ["--enable-cxx-namespaces"] + (["--vtable-generation"] if nsr.random() < 0.6 else [])
         cargs = ["--", "-x", "c++", "-std=c++14"]
     else:
         hdr = write(os.path.join(d, "a%d.h" % i), gen_allow.header(items))
@@ -149,8 +149,11 @@ def case(chk, i):
         # function generation switched off: functions are never emitted, everything else (incl. types that are reachable only through
         # the signature of a function-pointer member / typedef) is selected and closed over as usual
         nofn = chk.rng("nofn", i, s).random() < 0.25
+        methods_on = True
         if nofn:
             flags.append(r.choice(["--ignore-functions", "--generate=types,vars"]))
+            methods_on = flags[-1] == "--ignore-functions"       # that option leaves methods on, the --generate list above does not
+        vtables = "--vtable-generation" in base_flags
         R = set(it.name for it in items if any(matches(kd, pat, it) for kd, pat, _ in pats) and not (nofn and it.kind == "function"))
         B = set(it.name for it in items for bk, bn in block if (bk == "item" or it.kind == bk) and it.name == bn)
         if not pats:
@@ -205,7 +208,8 @@ def case(chk, i):
                 if x in seen or x in B:
                     continue
                 seen.add(x)
-                stack.extend(by[x].needs)
+                # types of method signatures are needed when the methods or the vtable structs are generated
+                stack.extend(by[x].needs | (by[x].mneeds if (methods_on or vtables) else set()))
             return seen
         C = cl(R)
         # upper bound for minimality: roots before the blocklist is applied, needs followed through everything
